@@ -1,5 +1,5 @@
 //@PROBE file=src/track/store.rs test=verif_probe_distances_c10 clauses=distances
-//@BOUND shard counts 1..=4, both only_baked settings, 300 pseudo-random store contents of 0..=7 tracks (0..=3 observations in each of two feature classes, a class sometimes missing, two compatibility groups, ready/pending/wasted status; the metric's postprocess_distances either the identity or 'keep the closest observation pair of the batch handed over', which must be one (candidate, stored track) pair) x candidate batches of 1..=3 external tracks (one sharing an id with a stored track) and owned batches of 1..=3 stored ids; whatever worker schedule occurs (pairs among the owned candidates themselves are schedule dependent and not compared)
+//@BOUND shard counts 1..=4, both only_baked settings, 300 pseudo-random store contents of 0..=7 tracks (0..=3 observations in each of two feature classes, a class sometimes missing, two compatibility groups, ready/pending/wasted status; the metric's postprocess_distances either the identity or 'keep the closest observation pair of the batch handed over', which must be one (candidate, stored track) pair) x candidate batches of 1..=3 external tracks (one sharing an id with a stored track) and owned batches of 1..=3 stored ids; whatever worker schedule occurs (the owned query is what D9 was found with: pairs among the owned candidates were dropped when a worker ran before the tracks were put back)
 #[cfg(test)]
 mod verif_probe_distances_c10 {
     // Bounded stand-in for the contract of the distance queries (worker threads, channels: no verifier reaches them).
@@ -124,11 +124,11 @@ mod verif_probe_distances_c10 {
                     let (ok, err) = s.owned_track_distances(&owned_ids, class as u64, only_baked);
                     let mut got: Vec<R> = ok.all().into_iter().map(|r| key(r.from, r.to, r.attribute_metric, r.feature_distance)).collect();
                     let _ = err.all();
-                    // pairs among the owned candidates themselves depend on whether a worker runs before the tracks are put back
-                    got.retain(|r| !(owned_ids.contains(&r.0) && owned_ids.contains(&r.1))); got.sort();
-                    let (want, _) = expected(&owned_specs, &stored, class, only_baked, &owned_ids, best_only);
+                    got.sort();
+                    // every owned candidate is compared with every OTHER stored track, the other owned candidates included
+                    let (want, _) = expected(&owned_specs, &stored, class, only_baked, &[], best_only);
                     cases += 1;
-                    if got != want { failures.push(format!("{}: distances.owned_candidates_compared_with_every_other_stored_track: owned={:?} got {} results, expected {}", ctx, owned_ids, got.len(), want.len())); }
+                    if got != want { failures.push(format!("{}: distances.owned_candidates_compared_with_every_other_stored_track_including_one_another: owned={:?} got {} results, expected {}", ctx, owned_ids, got.len(), want.len())); }
                     if snapshot(&s) != before || s.shard_stats().iter().sum::<usize>() != n { failures.push(format!("{}: distances.owned_query_leaves_the_store_unchanged: owned={:?}", ctx, owned_ids)); }
                 }
             } } }
